@@ -299,6 +299,7 @@ func c12Exec(cs c12Case) (*fw.Violation, *harness.Client) {
 }
 
 func runC12(c *fw.Ctx) {
+	runSpxFamily(c, "C12")
 	var item int64
 	sampled := 0
 	do := func(cs c12Case) {
